@@ -17,6 +17,7 @@ require (
 	github.com/DistCompiler/pgo/systems/shopcart v0.0.0
 	github.com/benbjohnson/immutable v0.4.3
 	github.com/dgraph-io/badger/v3 v3.2103.5
+	go.uber.org/multierr v1.11.0
 )
 
 require (
@@ -44,7 +45,6 @@ require (
 	github.com/spf13/viper v1.19.0 // indirect
 	github.com/subosito/gotenv v1.6.0 // indirect
 	go.opencensus.io v0.24.0 // indirect
-	go.uber.org/multierr v1.11.0 // indirect
 	golang.org/x/exp v0.0.0-20250218142911-aa4b98e5adaa // indirect
 	golang.org/x/net v0.35.0 // indirect
 	golang.org/x/sys v0.30.0 // indirect
